@@ -10,7 +10,7 @@
      accepted cfg ops       the add_table_row calls of the history that name a table and (with
                             ignore_missing=False) carry every column *)
 From Coq Require Import ZArith List Bool.
-From Mesa Require Import Model.DataCollector Proofs.DataCollectorProofs.
+From Mesa Require Import Generated.Tables Model.DataCollector Proofs.DataCollectorProofs Proofs.DataCollectorBridge.
 Import ListNotations.
 Open Scope Z_scope.
 
@@ -181,6 +181,54 @@ Theorem C12_records_well_formed : forall cfg ops,
   records_wf cfg (s_d (exec cfg (state_init cfg) ops)).
 Proof. intros cfg ops. exact (exec_wf cfg ops (state_init cfg) (init_wf cfg)). Qed.
 Print Assumptions C12_records_well_formed.
+
+(* ================= code-level T1: the same statements about the code TRANSLATED from the working tree =================
+   gen_* are regenerated from mesa/datacollection.py on every run (harness/tables/datacollect_batch_code.py). *)
+
+(* the statements of collect / _record_agents / _record_agenttype that are not translated expression by expression are,
+   verbatim, what Model/DataCollector.v transcribes (validation once, then the loop; _collection_steps appended after the
+   model reporters; agent records assigned under model.steps; the (steps, unique_id) prefix of every row) *)
+Theorem C12_source_skeleton : gen_collect_skeleton_ok = true.
+Proof. vm_compute. reflexivity. Qed.
+Print Assumptions C12_source_skeleton.
+
+(* the model's add_table_row IS the translated rejection test + the translated per-column cell *)
+Theorem C12_add_row_is_source : forall d t r ign, add_row d t r ign = gen_add_row d t r ign.
+Proof. exact add_row_bridge. Qed.
+Print Assumptions C12_add_row_is_source.
+
+(* C18 for the translated code: a rejected row leaves the collector unchanged *)
+Theorem C18_datacollector_atomic_of_source : forall d t r ign d' e,
+  gen_add_row d t r ign = (d', Err e) -> d' = d.
+Proof. exact gen_add_row_atomic. Qed.
+Print Assumptions C18_datacollector_atomic_of_source.
+
+(* column alignment for the translated code: an accepted row extends every column of its table by one cell *)
+Theorem C12_tables_aligned_of_source : forall d t r ign d' cols,
+  gen_add_row d t r ign = (d', Ok tt) -> aget t (d_tables d) = Some cols ->
+  exists cols', aget t (d_tables d') = Some cols' /\ map fst cols' = map fst cols /\
+                map (fun c => length (snd c)) cols' = map (fun c => S (length (snd c))) cols.
+Proof. exact gen_add_row_aligned. Qed.
+Print Assumptions C12_tables_aligned_of_source.
+
+(* the agents of a class are chosen by the translated three-way test of _record_agenttype
+   (in_types: the class is a key of agents_by_type - implied by having direct instances) *)
+Theorem C12_type_agents_of_source : forall w t in_types,
+  let direct := filter (fun a => a_cls a =? t) (w_agents w) in
+  (negb (is_nil direct) = true -> in_types = true) ->
+  type_agents w t =
+  (if gen_type_choice in_types (negb (is_nil direct)) (is_agent_class t) =? 0 then Ok direct
+   else if gen_type_choice in_types (negb (is_nil direct)) (is_agent_class t) =? 1
+        then Ok (filter (fun a => is_sub (a_cls a) t) (w_agents w))
+        else Err E_VALUE).
+Proof. exact type_agents_bridge. Qed.
+Print Assumptions C12_type_agents_of_source.
+
+(* each reporter form is evaluated by the branch the translated isinstance chain of collect selects for its Python type *)
+Theorem C12_dispatch_of_source : forall w r,
+  eval_mrep w r = eval_by_code w (gen_dispatch (rep_is_fun r) (rep_is_str r) (rep_is_list r)) r.
+Proof. exact dispatch_bridge. Qed.
+Print Assumptions C12_dispatch_of_source.
 
 (* ---- non-vacuity: a history satisfying every hypothesis above, with a mutable list mutated after
    the collect, two collects in one step, agent churn, a base-class key and a rejected row ---- *)
